@@ -585,3 +585,30 @@ Lemma state_commit_extends : forall objs s msg objs' so,
 Proof.
   intros objs s msg objs' so H. apply state_commit_spec in H as [[ext [-> _]] _]. apply store_extends_app.
 Qed.
+
+(* ---------------------------------------------------------------- extensions without states *)
+
+(* the store grows by objects that are not stack state commits *)
+Definition ns_extends (a b : store) : Prop :=
+  exists ext, b = a ++ ext /\ Forall (fun c => c_state c = None) ext.
+
+Lemma ns_store : forall a b, ns_extends a b -> store_extends a b.
+Proof. intros a b [ext [-> _]]. apply store_extends_app. Qed.
+
+Lemma ns_extends_refl : forall a, ns_extends a a.
+Proof. intros a. exists []. split; [now rewrite app_nil_r|constructor]. Qed.
+
+Lemma ns_extends_trans : forall a b c, ns_extends a b -> ns_extends b c -> ns_extends a c.
+Proof.
+  intros a b c [e1 [-> H1]] [e2 [-> H2]]. exists (e1 ++ e2). split; [now rewrite app_assoc|].
+  apply Forall_app. now split.
+Qed.
+
+Lemma ns_extends_app1 : forall a c, c_state c = None -> ns_extends a (a ++ [c]).
+Proof. intros a c H. exists [c]. split; [reflexivity|]. constructor; [exact H|constructor]. Qed.
+
+Lemma ns_state_of : forall a b so s, ns_extends a b -> state_of b so = Some s -> state_of a so = Some s.
+Proof.
+  intros a b so s [ext [-> Hf]] H. apply state_of_app_inv in H as [H|[c [Hc Hs]]]; [exact H|].
+  rewrite Forall_forall in Hf. rewrite (Hf c Hc) in Hs. discriminate.
+Qed.
